@@ -12,6 +12,7 @@ import (
 )
 
 func init() {
+	register("ParamAPI", H_ParamAPI)
 	register("DriverFold", H_DriverFold)
 	register("UnsupportedOps", H_UnsupportedOps)
 }
@@ -202,6 +203,29 @@ func (c *foldChecker) expect(v any) string {
 	return ""
 }
 
+// collectExprs lists every expression node of the tree.
+func collectExprs(v any, out []*expr.Expression) []*expr.Expression {
+	switch x := v.(type) {
+	case *expr.Expression:
+		if x == nil {
+			return out
+		}
+		out = append(out, x)
+		out = collectExprs(x.Left, out)
+		out = collectExprs(x.Right, out)
+	case []*expr.Expression:
+		for _, e := range x {
+			out = collectExprs(e, out)
+		}
+	case *expr.RangeBoundary:
+		if x != nil {
+			out = collectExprs(x.Min, out)
+			out = collectExprs(x.Max, out)
+		}
+	}
+	return out
+}
+
 // cutLists shortens every value list to its first item; it reports whether there was one.
 func cutLists(v any) bool {
 	switch x := v.(type) {
@@ -246,6 +270,11 @@ func H_DriverFold() {
 			return
 		}
 	}
+	undef := rtParam("UNDEF") == 1 // one node's operator is not an operator at all (a tree JSON or the expr API can build)
+	if undef {
+		all := collectExprs(e, nil)
+		all[rtChoose("undefnode", len(all))].Op = expr.Undefined
+	}
 	nodes := countNodes(e)
 	mode := rtParam("MODE") // 0 plain fold, 1 one call fails, 2 one operator missing from the map
 	tr := &foldTracer{failAt: -1, retLen: rtParam("RETLEN")}
@@ -263,6 +292,12 @@ func H_DriverFold() {
 	}
 	b := driver.Base{RenderFNs: fns}
 	out, rerr := b.Render(e)
+	if undef { // no map can hold a function for it: Render fails and emits nothing
+		rtAssert("fold-missing-is-error", rerr != nil)
+		rtAssert("fold-missing-no-partial-sql", out == "")
+		rtReach("end")
+		return
+	}
 	switch mode {
 	case 0:
 		rtAssert("fold-no-error", rerr == nil)
@@ -322,5 +357,41 @@ func H_UnsupportedOps() {
 		delete(d.RenderFNs, expr.Boost)
 	}
 	rtAssert("private-driver-is-private", err2 != nil && s2 == "" && perr2 != nil && ps2 == "")
+	rtReach("end")
+}
+
+// H_ParamAPI (C04): placeholder count and parameter order on value lists only the exported API
+// (or JSON) can build: items that carry no parameter (a column, a bare *) or several (a nested list).
+func H_ParamAPI() {
+	s1, s2 := holeStr(), holeStr()
+	_, i1 := holeInt()
+	var e *expr.Expression
+	var want []any
+	switch rtChoose("shape", 4) {
+	case 0:
+		e = expr.IN("a", expr.LIST([]*expr.Expression{expr.Lit(expr.Column("b")), expr.Lit(s1), expr.Lit(i1)}))
+		want = []any{s1, i1}
+	case 1:
+		e = expr.IN("a", expr.LIST([]*expr.Expression{expr.Lit(s1), expr.Lit(expr.Column("b")), expr.Lit(s2)}))
+		want = []any{s1, s2}
+	case 2:
+		e = expr.AND(expr.IN("a", expr.LIST([]*expr.Expression{expr.Lit(s1), expr.Lit(expr.Column("b"))})), expr.Eq("c", s2))
+		want = []any{s1, s2}
+	default:
+		e = expr.IN("a", expr.LIST([]*expr.Expression{expr.Lit(i1), expr.Lit(s1)}))
+		want = []any{i1, s1}
+	}
+	if expr.Validate(e) != nil {
+		rtAssume(false)
+		return
+	}
+	psql, params, perr := pg.RenderParam(e)
+	if perr != nil {
+		rtReach("param-error")
+		return
+	}
+	rtObserve("psql", psql)
+	rtAssert("param-count", countPlaceholders(psql) == len(params))
+	rtAssert("param-values-in-order", sameParams(params, want))
 	rtReach("end")
 }
